@@ -68,7 +68,12 @@ ReobsProg(c) == <<Set("s", Step(c.f, X)), Set("m", Step(c.g, Var("s"))), D(Var("
 \* family 3: writes to names that exist in the caller's context
 WriteKinds == {"set", "loopvar", "loopkey", "includewith", "macroparam", "setinloop", "setinblock", "setininclude",
                "importalias", "fromalias", "macroname", "setmerge", "blockname"}
+\* a variable that holds the caller's list / hash is assigned the result of merging something new into it (at the top, as a loop
+\* variable, as a macro parameter, as an include's with-variable): the assignment is the template's, the caller's value stays
+MergeNewKinds == {"setmergenew", "loopmergenew", "macromergenew", "incmergenew"}
 WriteCases == {[fam |-> "write", d |-> d, w |-> w] : d \in {"any", "map"}, w \in WriteKinds}
+              \cup {[fam |-> "write", d |-> d, w |-> w] : d \in {"any", "anycap", "map"}, w \in MergeNewKinds}
+NewFor(d) == IF d = "map" THEN Hash(<<LS(NT.z)>>, <<LI(9)>>) ELSE Arr(<<LI(9)>>)
 WriteProg(c) ==
     CASE c.w = "set"          -> <<Set("x", LI(5)), D(X)>>
       [] c.w = "loopvar"      -> <<For1("x", Lit(VL(<<VI(1), VI(2)>>)), <<D(X)>>), T(<<124>>)>>
@@ -84,6 +89,10 @@ WriteProg(c) ==
       [] c.w = "macroname"    -> <<Macro("x", <<>>, <<T(<<109>>)>>), PrintS(MCall("_self", "x", <<>>))>>
       [] c.w = "blockname"    -> <<Block("x", <<T(<<98>>)>>), T(<<124>>), D(X)>>
       [] c.w = "setmerge"     -> <<Set("x", FA("merge", X, <<X>>)), D(X)>>
+      [] c.w = "setmergenew"  -> <<Set("x", FA("merge", X, <<NewFor(c.d)>>)), D(X), Set("x", FA("merge", X, <<NewFor(c.d)>>)), D(X)>>
+      [] c.w = "loopmergenew" -> <<For1("v", Arr(<<X>>), <<Set("v", FA("merge", Var("v"), <<NewFor(c.d)>>)), D(Var("v"))>>), T(<<124>>), D(X)>>
+      [] c.w = "macromergenew" -> <<Macro("mm", <<Param("p")>>, <<Set("p", FA("merge", Var("p"), <<NewFor(c.d)>>)), D(Var("p"))>>), PrintS(Call("mm", <<X>>)), T(<<124>>), D(X)>>
+      [] c.w = "incmergenew"  -> <<Include(LS(NT.t5), Hash(<<LS(NT.p)>>, <<X>>), TRUE, TRUE, FALSE, FALSE), T(<<124>>), D(X)>>
 \* family 4: nested data reached through attributes
 NestCases == {[fam |-> "nested", f |-> f, g |-> g] : f \in {"sort", "reverse", "merge", "slice", "slicetail", "mergeself"}, g \in {"sort", "reverse", "merge"}}
 NestCtx == ("o" :> VMg(<<VS(<<73, 116, 101, 109, 115>>)>>, <<VL(I3)>>, "holder"))        \* struct{Items []int}
@@ -129,17 +138,33 @@ ObjProgs == [ loopnext |-> <<For1("i", X, <<PrintS(Attr(Var("i"), "Next")), T(<<
 \* (pointers handed in by the caller are the caller's invitation to work on the objects: only values and arrays of values)
 ObjCases == {[fam |-> "objs", d |-> d, p |-> p] : d \in {"counters", "counterarr"}, p \in DOMAIN ObjProgs}
 
+\* family 9: functions and filters that walk the whole value (what they give is C19's business or not stated at all:
+\* only the caller's data and the repeatability are checked)
+MiiMap == VMg(<<VI(1), VS(<<49>>)>>, <<VS(<<97>>), VS(<<98>>)>>, "mii")          \* map[interface{}]interface{}{1: "a", "1": "b"}
+WalkData == [ anycap |-> Data.anycap, any |-> Data.any, ints |-> Data.ints, map |-> Data.map, msi |-> Data.msi,
+              nestmii |-> VM(<<VS(<<107>>)>>, <<MiiMap>>), listmii |-> VL(<<MiiMap, VI(2)>>),
+              deepmii |-> VM(<<VS(<<107>>)>>, <<VL(<<VM(<<VS(<<106>>)>>, <<MiiMap>>)>>)>>) ]
+WalkProgs == [ jsonf    |-> <<D(F("json_encode", X)), T(<<124>>), D(X)>>,
+               jsonfn   |-> <<D(Call("json_encode", <<X>>)), T(<<124>>), D(X)>>,
+               mergefn  |-> <<D(Call("merge", <<X, Arr(<<LI(9)>>)>>)), T(<<124>>), D(X)>>,
+               mergefn3 |-> <<D(Call("merge", <<X, X, Arr(<<LI(9), LI(8)>>)>>)), T(<<124>>), D(X)>>,
+               mergefnh |-> <<D(Call("merge", <<X, Hash(<<LS(NT.z)>>, <<LI(9)>>)>>)), T(<<124>>), D(X)>>,
+               mergefnset |-> <<Set("m", Call("merge", <<X, Arr(<<LI(9)>>)>>)), Set("n", Call("merge", <<X, Arr(<<LI(8)>>)>>)), D(Var("m")), D(Var("n")), D(X)>>,
+               lengthf  |-> <<D(F("length", X)), D(F("keys", X)), D(X)>> ]
+WalkCases == {[fam |-> "walk", d |-> d, p |-> p] : d \in DOMAIN WalkData, p \in DOMAIN WalkProgs}
+
 \* a context with many keys (size classes of the engine's pooled maps) and top-level writes
 BigKeys == {"k01", "k02", "k03", "k04", "k05", "k06", "k07", "k08", "k09", "k10", "k11", "k12", "k13", "k14", "k15", "k16", "k17", "k18", "k19", "k20"}
 BigCtx(n) == [k \in {kk \in BigKeys : \E i \in 1..n : kk = (IF i < 10 THEN "k0" \o ToString(i) ELSE "k" \o ToString(i))} |-> VI(1)] @@ ("x" :> VL(I3))
 BigCases == {[fam |-> "bigctx", n |-> n, w |-> w] : n \in {3, 15, 16, 17, 20}, w \in {"set", "loopvar", "setinloop", "macroparam"}}
-BigProg(c) == <<Set("k01", LI(5)), Set("fresh", LI(6))>> \o WriteProg([w |-> c.w]) \o <<PrintS(Var("k01")), PrintS(Var("k02"))>>
-Prog(c) == CASE c.fam = "objs" -> ObjProgs[c.p] [] c.fam = "bigctx" -> BigProg(c) [] c.fam = "pair" -> PairProg(c) [] c.fam = "mergeargs" -> MergeArgProg(c) [] c.fam = "chain" -> ChainProg(c) [] c.fam = "reobs" -> ReobsProg(c)
+BigProg(c) == <<Set("k01", LI(5)), Set("fresh", LI(6))>> \o WriteProg([w |-> c.w, d |-> "any"]) \o <<PrintS(Var("k01")), PrintS(Var("k02"))>>
+Prog(c) == CASE c.fam = "objs" -> ObjProgs[c.p] [] c.fam = "walk" -> WalkProgs[c.p] [] c.fam = "bigctx" -> BigProg(c) [] c.fam = "pair" -> PairProg(c) [] c.fam = "mergeargs" -> MergeArgProg(c) [] c.fam = "chain" -> ChainProg(c) [] c.fam = "reobs" -> ReobsProg(c)
              [] c.fam = "write" -> WriteProg(c) [] c.fam = "nested" -> NestProg(c)
-CtxOf(c) == IF c.fam = "objs" THEN ("x" :> ObjData[c.d]) ELSE IF c.fam = "nested" THEN NestCtx ELSE IF c.fam = "bigctx" THEN BigCtx(c.n)
+CtxOf(c) == IF c.fam = "objs" THEN ("x" :> ObjData[c.d]) ELSE IF c.fam = "walk" THEN ("x" :> WalkData[c.d]) ELSE IF c.fam = "nested" THEN NestCtx ELSE IF c.fam = "bigctx" THEN BigCtx(c.n)
             ELSE IF c.fam = "pair" THEN ("x" :> PairData[c.d].x) @@ ("y" :> PairData[c.d].y) ELSE ("x" :> Data[c.d])
 Tp(c) == ("main" :> Prog(c)) @@ ("t1" :> <<D(X), Set("x", LI(0))>>) @@ ("t2" :> <<Set("x", LI(9)), D(X)>>) @@ ("t3" :> <<Macro("mm", <<>>, <<T(<<109>>)>>)>>)
          @@ ("t4" :> <<PrintS(Attr(Var("e"), "Next")), PrintS(Attr(Var("e"), "Push"))>>)
+         @@ ("t5" :> <<Set("p", FA("merge", Var("p"), <<NewFor(IF "d" \in DOMAIN c THEN c.d ELSE "any")>>)), D(Var("p"))>>)
 Ref(c) == Render(MkW(Tp(c), {}, {}, NoFault), "main", CtxOf(c))
 
 CaseOf(c) ==
@@ -148,23 +173,23 @@ CaseOf(c) ==
      tags |-> {"fam:" \o c.fam} \cup (IF "d" \in DOMAIN c THEN {"d:" \o c.d} ELSE {})
               \cup (IF c.fam = "chain" THEN {"f:" \o c.fs[i] : i \in 1..Len(c.fs)} ELSE {})
               \cup (IF c.fam \in {"reobs", "nested"} THEN {"f:" \o c.f, "f:" \o c.g} ELSE {})
-              \cup (IF c.fam \in {"write", "bigctx"} THEN {"w:" \o c.w} ELSE {}) \cup (IF c.fam = "pair" THEN {"f:" \o c.f, "form:" \o c.form} ELSE {}),
+              \cup (IF c.fam \in {"write", "bigctx"} THEN {"w:" \o c.w} ELSE {}) \cup (IF c.fam = "walk" THEN {"p:" \o c.p} ELSE {}) \cup (IF c.fam = "pair" THEN {"f:" \o c.f, "form:" \o c.form} ELSE {}),
      entry |-> "main", ctx |-> CtxOf(c),
      \* (the second run: the engine in debug mode)
      runs |-> {[label |-> c.fam, tp |-> Sources(Tp(c), LMin), xcalls |-> [id \in {} |-> 0], shared |-> 2],
                [label |-> c.fam \o "/debug", tp |-> Sources(Tp(c), LMin), xcalls |-> [id \in {} |-> 0], shared |-> 2, debug |-> TRUE]},
      \* (what merge makes of arguments of mixed kinds is not stated: only the caller's data and the repeatability are checked)
-     expect |-> IF c.fam \in {"mergeargs", "objs"} THEN [ok |-> TRUE, anyoutcome |-> TRUE, out |-> <<>>, noout |-> TRUE, err |-> "", calls |-> [id \in {} |-> 0]]
+     expect |-> IF c.fam \in {"mergeargs", "objs", "walk"} THEN [ok |-> TRUE, anyoutcome |-> TRUE, out |-> <<>>, noout |-> TRUE, err |-> "", calls |-> [id \in {} |-> 0]]
                 ELSE [ok |-> ref.ok, out |-> ref.out, err |-> ref.err, calls |-> [id \in {} |-> 0]]]
 
-Fams == {"chain", "reobs", "write", "nested", "bigctx", "pair", "mergeargs", "objs"}
-All == ChainCases \cup ReobsCases \cup WriteCases \cup NestCases \cup BigCases \cup PairCases \cup MergeArgCases \cup ObjCases
+Fams == {"chain", "reobs", "write", "nested", "bigctx", "pair", "mergeargs", "objs", "walk"}
+All == ChainCases \cup ReobsCases \cup WriteCases \cup NestCases \cup BigCases \cup PairCases \cup MergeArgCases \cup ObjCases \cup WalkCases
 Init == cs \in {[part |-> f] : f \in Fams}
 Valid(c) == CASE c.fam = "chain" -> ChainOK(c.d, c.fs)
              [] c.fam = "reobs" -> (IsMapData(c.d) => c.f \in MapFirstSteps /\ (c.f \in {"default", "mergeself"} => c.g \in MapFirstSteps))
              [] c.fam = "pair" -> PairOK(c)
              [] OTHER -> TRUE
-Next == "part" \in DOMAIN cs /\ cs' \in {c \in All : c.fam = cs.part /\ Valid(c) /\ (c.fam \in {"mergeargs", "objs"} \/ Ref(c).ok)}
+Next == "part" \in DOMAIN cs /\ cs' \in {c \in All : c.fam = cs.part /\ Valid(c) /\ (c.fam \in {"mergeargs", "objs", "walk"} \/ Ref(c).ok)}
 Spec == Init /\ [][Next]_cs
 IsCase == "fam" \in DOMAIN cs
 Emit == IsCase => PrintT(ToJson(CaseOf(cs)))
